@@ -593,7 +593,8 @@ impl Prop for C15 {
             Outcome::Ok { generated, warnings } if warnings.is_empty() => generated.clone(),
             Outcome::Panic { message, location } => return CaseResult { discs: vec![Disc::new(format!("panic|{location}"), format!("{message}\n{src}"))], nontrivial: false, outcome: "panic".into(), skipped: None },
             other => {
-                return CaseResult { discs: vec![Disc::new(format!("{kb}|kind=rejected:{}", other.class()), format!("well-formed FROM constraint not compiled cleanly: {}\n{src}", other.brief()))], nontrivial: false, outcome: other.class().into(), skipped: None };
+                let why = if other.brief().contains("is not in char set") { ":char-not-in-table" } else { "" };
+                return CaseResult { discs: vec![Disc::new(format!("{kb}|kind=rejected:{}{why}", other.class()), format!("well-formed FROM constraint not compiled cleanly: {}\n{src}", other.brief()))], nontrivial: false, outcome: other.class().into(), skipped: None };
             }
         };
         let p = match project(&gen) {
@@ -676,7 +677,14 @@ impl Prop for C15 {
             } else if blind_match && c.cons.len() == 2 && c.ctx == "assign" {
                 "alphabet|serial-union".to_string()
             } else {
-                format!("{kb}|kind={}", if excludes { "missing-char" } else { "extra-char" })
+                // BMPString / UniversalString: the compiler's table ends at U+FFFE (known); say whether the difference is
+                // exactly that, so that any other difference on these types has a key of its own
+                let wide = c.ty == "BMP" || c.ty == "Universal";
+                let (missing, extra) = (diff(&exact, &got), diff(&got, if has_except { &noexc } else { &exact }));
+                let beyond: Set = vec![(0xFFFF, 0x10FFFF)];
+                let _ = &extra;
+                let whr = if !wide || !excludes { "" } else if subset(&missing, &beyond) { "|where=beyond-U+FFFE" } else { "|where=below-U+FFFF" };
+                format!("{kb}|kind={}{whr}", if excludes { "missing-char" } else { "extra-char" })
             };
             discs.push(Disc::new(key, format!("expected {} ({} chars) got {} ({} chars){}\n{full}", show(&exact), size(&exact), show(&got), size(&got), if excludes { " — EXCLUDES permitted characters" } else { "" })));
         }
